@@ -12,7 +12,9 @@ Record dcase := mkD {
   d_obs : option (list positive * bool);   (* observed: chosen groups, IsReleasing *)
 }.
 
-Inductive c02case := PCycle (k : ccase) | PDecision (d : dcase).
+(** [PFault]: a cycle with injected Bind / Evict API failures; only the calls that succeeded are
+    listed, no correspondence is claimed (see Run/C01.v), the device monitor must hold. *)
+Inductive c02case := PCycle (k : ccase) | PDecision (d : dcase) | PFault (k : ccase).
 
 Definition decision_eqb (a b : option (list positive * bool)) : bool :=
   match a, b with
@@ -37,11 +39,11 @@ Definition decision_monitor (d : dcase) : bool :=
   end.
 
 Definition model_agrees (c : c02case) : bool :=
-  match c with PCycle k => cycle_agrees k | PDecision d => decision_agrees d end.
+  match c with PCycle k => cycle_agrees k | PDecision d => decision_agrees d | PFault _ => true end.
 Definition monitor_ok (c : c02case) : bool :=
-  match c with PCycle k => c02_ok k | PDecision d => decision_monitor d end.
+  match c with PCycle k => c02_ok k | PDecision d => decision_monitor d | PFault k => c02_ok k end.
 Definition run_mismatches (cs : list (nat * c02case)) : list nat := failing (fun k => negb (model_agrees k)) cs.
 Definition run_monitor (cs : list (nat * c02case)) : list nat := failing (fun k => negb (monitor_ok k)) cs.
 Definition run_flags (cs : list (nat * c02case)) : list (nat * list nat) :=
   filter (fun p => negb (Nat.eqb (List.length (snd p)) 0))
-         (map (fun c => (fst c, match snd c with PCycle k => cycle_flags k | PDecision _ => [] end)) cs).
+         (map (fun c => (fst c, match snd c with PCycle k => cycle_flags k | _ => [] end)) cs).
